@@ -76,6 +76,49 @@ def factors(expr) -> Optional[List[Any]]:
     return None
 
 
+def check_history(ctx, interp, MAX: int, where: str):
+    """If get_num_cells / get_num_children keep results in module-level tables: every value any call may have left under a key
+    is offered to every other call (saturation); a result that differs from the cold-table result is a history dependence."""
+    cold: Dict[tuple, Any] = {}
+    interp.saturated = False
+    requests = [("get_num_cells", (r,)) for r in range(-1, MAX + 1)] + \
+               [("get_num_children", (a, b)) for a in range(-1, MAX + 1) for b in range(a, MAX + 1)]
+    for fn, args in requests:
+        cold[(fn, args)] = const_call(interp, INFO, fn, list(args))
+    if not any(interp.map_values.values()):
+        ctx.ok("C20.5", f"{QI}: the count functions keep no results between calls", where, "no module-level table is written by get_num_cells / get_num_children")
+        return
+    interp.saturated = True
+    bad = 0
+    try:
+        for fn, args in requests:
+            interp.current_request = f"{fn}{args} (warm)"
+            outs = interp.run_function(INFO, fn, [Lin(a) for a in args])
+            for o in outs:
+                v = o.value.const if (o.kind == "return" and isinstance(o.value, Lin) and o.value.is_const()) else (Raises(str(o.value)) if o.kind == "raise" else None)
+                c = cold[(fn, args)]
+                if v is None or c is None:
+                    continue
+                if repr(v) != repr(c):
+                    bad += 1
+                    if bad <= 5:
+                        # who could have left the value that is picked up?
+                        prov = []
+                        for tbl, keys in interp.map_stores.items():
+                            for key, vals in keys.items():
+                                for rv, who in vals.items():
+                                    if f"{tbl[1]}[{key!r}]" in " ".join(str(cn) for cn, _, _ in o.state.path) and who and "(warm)" not in who:
+                                        prov.append(f"{tbl[1]}[{key!r}] = {rv} stored by {who}")
+                        ctx.bad("C20.5", f"{QI}.{fn}{args} returns {v} instead of {c} after other calls", where,
+                                f"a module-level table is read under a key that an earlier call with different arguments also writes: {prov[:3]}; "
+                                f"the count used to size outputs then disagrees with the hierarchy")
+    finally:
+        interp.saturated = False
+    if not bad:
+        ctx.ok("C20.5", f"{QI}: results kept in module-level tables do not change any count", where,
+               f"{len(requests)} requests re-evaluated with every value an earlier call could have stored")
+
+
 def run(ctx):
     ctx.explanation = (
         "get_num_cells, get_num_children and cell_area are evaluated abstractly for every resolution / resolution pair "
@@ -179,6 +222,9 @@ def run(ctx):
             else:
                 nzero += 1
     ctx.ok("C20.2", f"{QI}.get_num_children(a, b) == 0 for all b < a", wc, f"{nzero} pairs")
+
+    # ---- C20.5 the count functions do not depend on earlier calls (module-level memo tables) ------------------------
+    check_history(ctx, interp, MAX, wc)
 
     # ---- C20.3 expansion of the world cell and the product rule -----------------------------------------
     for r in range(0, MAX + 1):
